@@ -39,7 +39,7 @@ def skeleton(f, n, out, names=None):
         skeleton(f, c, out, names)
 
 
-def effect_paths(prog, f):
+def effect_paths(prog, f, twin_cls=None):
     """set of (sorted calls to sibling members and row-level helpers, outcome) over all abstract paths of f; conditions are free choices"""
     from bsv.dtab import TOP, Interp, Model, Sym
 
@@ -56,6 +56,9 @@ def effect_paths(prog, f):
                 it.ev(fr, x, depth)
             if obj is not None:
                 it.ev(fr, obj, depth)
+            if callee.get('repo') and callee.get('cls') == f.cls and twin_cls is not None and callee['n'] not in twin_names \
+                    and callee['id'] in it.prog.funcs and depth < it.max_depth:
+                return NotImplemented       # a private helper only this copy has (extracted from the shared logic): part of the body
             if callee.get('repo') and callee['q'].startswith(NS):
                 it.act('CALLS', callee['n'])
                 g = it.prog.funcs.get(callee.get('id'))
@@ -67,7 +70,8 @@ def effect_paths(prog, f):
                 it.act('CALLS', callee['n'])
             return TOP
 
-    it = Interp(prog, M(), max_depth=0, max_paths=4000)
+    twin_names = set(g.name for g in prog.funcs.values() if g.cls == NS + twin_cls) if twin_cls else set()
+    it = Interp(prog, M(), max_depth=2 if twin_cls else 0, max_paths=4000)
 
     def init(it_, fr):
         for p in f.params:
@@ -104,7 +108,7 @@ def run(prog, rep):
         rep.touch(fb[0])
         # Equal token skeletons are sufficient but not necessary (a one-sided refactoring keeps the behaviour and changes the tokens), so the
         # verdict is taken on the sets of abstract paths: which member functions are called, what is thrown, what is returned.
-        pa, pb = effect_paths(prog, fa[0]), effect_paths(prog, fb[0])
+        pa, pb = effect_paths(prog, fa[0], b), effect_paths(prog, fb[0], a)
         # and, cell by cell over the concrete row states of R9.3, the same outcome, calls and effects on the counters (differential abstract execution)
         from rules import c09
         if name == 'ParseNextRow':
